@@ -296,11 +296,31 @@ func v16Exec(t *testing.T, ops []string, s *v16State) {
 			continue
 		}
 		if f[0] == "conn" {
-			adv, err := strconv.Atoi(f[len(f)-1])
-			if len(f) != 2 || err != nil || adv < 1 || adv > 1000 || c != nil {
+			// conn <adv> [<scheduler>]: default | rr | p9218 | p7540 | rand
+			adv, err := strconv.Atoi(f[min(1, len(f)-1)])
+			sched := "default"
+			if len(f) == 3 {
+				sched = f[2]
+			}
+			var newSched func() WriteScheduler
+			switch sched {
+			case "default":
+			case "rr":
+				newSched = NewRoundRobinWriteScheduler
+			case "p9218":
+				newSched = NewPriorityWriteSchedulerRFC9218
+			case "p7540":
+				newSched = func() WriteScheduler { return NewPriorityWriteSchedulerRFC7540(nil) }
+			case "rand":
+				newSched = NewRandomWriteScheduler
+			default:
+				err = fmt.Errorf("unknown scheduler")
+			}
+			if len(f) < 2 || len(f) > 3 || err != nil || adv < 1 || adv > 1000 || c != nil {
 				rec(op, "bad-op")
 				continue
 			}
+			s.o.Stat("sched:" + sched)
 			c = &v16Conn{t: t, s: s, pingAck: map[[8]byte]bool{}, resp: map[uint32]bool{}}
 			s.adv = adv
 			DisableGoroutineTracking(t)
@@ -309,7 +329,10 @@ func v16Exec(t *testing.T, ops []string, s *v16State) {
 				s.o.Fail("", fmt.Sprintf("serverConn.serve panicked: %v", v))
 				return false
 			})
-			c.st = newServerTester(t, c.serveHTTP, func(sv *Server) { sv.MaxConcurrentStreams = uint32(adv) }, optQuiet)
+			c.st = newServerTester(t, c.serveHTTP, func(sv *Server) {
+				sv.MaxConcurrentStreams = uint32(adv)
+				sv.NewWriteScheduler = newSched
+			}, optQuiet)
 			// waits are explicit (observe): no synctest.Wait around every conn read / write
 			c.st.cc.(*synctestNetConn).autoWait = false
 			c.henc = hpack.NewEncoder(&c.hbuf)
@@ -766,10 +789,117 @@ func v16RejectedThenData(r *vu.Rng, ops []string) []string {
 	return ops
 }
 
+
+// v16PriorityValue draws an RFC 9218 priority field value from a small grammar: urgencies at and
+// beyond both ends of 0..7 (negative, huge, decimal, leading zeros), the incremental flag in its
+// forms, parameters, duplicates, inner lists and malformed dictionaries.
+func v16PriorityValue(r *vu.Rng) string {
+	us := []string{"0", "1", "3", "7", "8", "9", "-1", "-2", "-7", "-8", "-128", "-129", "-249", "-255", "-256", "-257",
+		"255", "256", "263", "65536", "2147483648", "4294967295", "4294967296", "-4294967295", "999999999999999", "-999999999999999",
+		"9999999999999999", "1.5", "-0.5", "7.0", "-0", "007", "+1", "1e3", "", "a", "?1", "?0", "\"1\"", "(1 2)", ":AQ==:", "@1", " 2"}
+	u := "u=" + us[r.Intn(len(us))]
+	is := []string{"i", "i=?1", "i=?0", "i=1", "i=", "i=?2", "I", "i;x=1"}
+	switch r.Intn(12) {
+	case 0:
+		return u
+	case 1:
+		return u + ", " + is[r.Intn(len(is))]
+	case 2:
+		return is[r.Intn(len(is))] + "," + u
+	case 3:
+		return u + ";p=" + us[r.Intn(len(us))]
+	case 4:
+		return u + ", u=" + us[r.Intn(len(us))]
+	case 5:
+		return []string{"", ",", "u", "u=1,,i", "=1", "u =1", "u= 1", "U=1", "u=1 i", "u=1;", ";", "u=1,", "\x00", "u=\xff", "u=1\t, i"}[r.Intn(15)]
+	case 6:
+		return strings.Repeat("u=1, ", r.Range(2, 200)) + "i"
+	case 7:
+		return "u=" + strings.Repeat("9", r.Range(10, 40))
+	case 8:
+		return "u=-" + strings.Repeat("9", r.Range(10, 40))
+	default:
+		return u + ", i"
+	}
+}
+
+// v16Priority: requests carrying `priority` header fields and PRIORITY_UPDATE frames (for idle,
+// open and closed streams, stream 0, on a non-zero stream), with a reading or a blocked client so
+// that responses are queued in (and popped from) the write scheduler under the signalled urgency.
+func v16Priority(r *vu.Rng, ops []string) []string {
+	ops = append(ops, "pre", "set")
+	blocked := r.Chance(1, 3)
+	if blocked {
+		ops = append(ops, "block")
+	}
+	pu := func(on, target uint32, val string) string {
+		p := []byte{byte(target >> 24), byte(target >> 16), byte(target >> 8), byte(target)}
+		return "raw " + vu.Hex(v16Frame(0x10, 0, on, append(p, val...)))
+	}
+	sid := uint32(1)
+	for n := r.Range(1, 8); n > 0; n-- {
+		switch r.Intn(10) {
+		case 0, 1, 2: // PRIORITY_UPDATE
+			target := sid
+			switch r.Intn(4) {
+			case 0:
+				target = sid + 2*uint32(r.Intn(3)) // idle (buffered until the stream opens)
+			case 1:
+				if sid > 1 {
+					target = sid - 2
+				}
+			case 2:
+				target = uint32(r.Intn(4)) // 0, even, low
+			}
+			on := uint32(0)
+			if r.Chance(1, 10) {
+				on = sid
+			}
+			ops = append(ops, pu(on, target, v16PriorityValue(r)))
+		default: // request with priority field(s)
+			fields := [][2]string{{":method", []string{"GET", "POST"}[r.Intn(2)]}, {":scheme", "https"}, {":path", "/p"}, {":authority", "dummy.tld"}}
+			for k := r.Range(1, 2); k > 0; k-- {
+				v := v16PriorityValue(r)
+				if len(v) > 120 {
+					v = v[:120]
+				}
+				fields = append(fields, [2]string{"priority", v})
+			}
+			if r.Chance(1, 6) {
+				fields = append(fields, [2]string{"via", "1.1 proxy"})
+			}
+			es := byte(1)
+			if r.Chance(1, 4) {
+				es = 0
+			}
+			b := v16Frame(1, 4|es, sid, v16Block(fields))
+			if es == 0 {
+				b = append(b, v16Frame(0, 1, sid, r.Bytes(r.Intn(8)))...)
+			}
+			ops = append(ops, "raw "+vu.Hex(b))
+			sid += 2
+		}
+	}
+	if blocked {
+		ops = append(ops, "unblock")
+	}
+	return ops
+}
+
 func v16Gen(r *vu.Rng, i int) []string {
 	adv := []int{1, 2, 5, 250}[r.Intn(4)]
-	ops := []string{fmt.Sprintf("conn %d", adv)}
-	switch sc := r.Intn(27); {
+	sc := r.Intn(32)
+	sched := []string{"default", "rr", "p9218", "p7540", "rand"}[r.Intn(5)]
+	if sc >= 27 && r.Chance(3, 4) {
+		sched = "p9218" // the only scheduler that reads the priority signals
+	}
+	ops := []string{fmt.Sprintf("conn %d %s", adv, sched)}
+	if sched == "default" && r.Bool() {
+		ops[0] = fmt.Sprintf("conn %d", adv)
+	}
+	switch {
+	case sc >= 27:
+		ops = v16Priority(r, ops)
 	case sc >= 20 && sc < 24:
 		ops = v16PadFuzz(r, ops)
 	case sc >= 24:
